@@ -8,4 +8,5 @@ pub mod fuzzstage;
 pub mod lunmodel;
 pub mod model;
 pub mod props;
+pub mod routes;
 pub mod terms;
